@@ -27,7 +27,7 @@ const tScript = "TestIteratorScripts"
 
 // Act is one step of a script.
 type Act struct {
-	Op    string `json:"op"` // step | add | remove | close | cancel
+	Op    string `json:"op"` // step | add | remove | close | add-close | cancel
 	I     int    `json:"i,omitempty"`
 	End   int    `json:"end,omitempty"` // remove: 0 = the iterator's start end, 1 = the far end (deque)
 	Yield int    `json:"yield,omitempty"`
@@ -392,6 +392,21 @@ func runCase(c *Case) (key, why string, w *world) {
 				w.add()
 				w.mutated = true
 			}
+		case "add-close":
+			// an item is added and the container closed at once, before a
+			// parked iterator has had the chance to react to the item: it
+			// still has to yield it ("without skipping any") and only then
+			// finish with io.EOF
+			if !w.closed {
+				w.add()
+				w.mutated = true
+				if w.q != nil {
+					_ = w.q.Close()
+				} else {
+					_ = w.dq.Close()
+				}
+				w.closed = true
+			}
 		case "remove":
 			w.remove(a.End)
 			w.mutated = true
@@ -456,7 +471,7 @@ func genCase(t *rapid.T) *Case {
 		case k == 10:
 			a.Op, a.I = "cancel", rapid.IntRange(0, n-1).Draw(t, "i")
 		case k == 11:
-			a.Op = "close"
+			a.Op = rapid.SampledFrom([]string{"close", "close", "add-close"}).Draw(t, "closeKind")
 		default:
 			a.Op = "add"
 		}
